@@ -649,3 +649,137 @@ Proof.
   destruct (getitem_cur con dec (S mr) d0 (KS (H (fingerprint (method_b c) q)))) as [r d2] eqn:EG.
   cbn [fst] in G. subst r. reflexivity.
 Qed.
+
+(* =====================================================================================
+   directory_split="auto" (the constructor's default) after a crash: what the fixed writer can
+   leave behind -- an orphan temporary file NEXT TO the entry, inside the sub-directory for a
+   split key -- never changes the layout a later process detects
+   ===================================================================================== *)
+Definition top_all_dirs (f : fs) : Prop := Forall (fun e => length (fst e) = 1 -> snd e = FDir) f.
+Definition top_all_files (f : fs) : Prop := Forall (fun e => length (fst e) = 1 -> exists b, snd e = FFile b) f.
+
+Lemma split_auto_dirs f : top_all_dirs f -> split_auto f = true.
+Proof.
+  unfold split_auto, top_all_dirs. induction f as [|[q x] f IH]; intros HF; [reflexivity|].
+  cbn [filter fst]. destruct (Nat.eqb (length q) 1) eqn:E.
+  - apply Nat.eqb_eq in E. pose proof (Forall_inv HF E) as Hx. cbn [snd] in Hx. subst x. reflexivity.
+  - apply IH. exact (Forall_inv_tail HF).
+Qed.
+
+Lemma split_auto_files f p nd : top_all_files f -> length p = 1 -> fs_get p f = Some nd -> split_auto f = false.
+Proof.
+  unfold split_auto, top_all_files. induction f as [|[q x] f IH]; intros HF Lp G; [discriminate|].
+  cbn [filter fst]. destruct (Nat.eqb (length q) 1) eqn:E.
+  - apply Nat.eqb_eq in E. destruct (Forall_inv HF E) as [b Hb]. cbn [snd] in Hb. subst x. reflexivity.
+  - apply IH; [exact (Forall_inv_tail HF)|exact Lp|].
+    cbn [fs_get] in G. destruct (path_eqb q p) eqn:EP; [|exact G].
+    apply path_eqb_eq in EP. subst q. apply Nat.eqb_neq in E. contradiction.
+Qed.
+
+Lemma fs_set_forall (P : path * fnode -> Prop) p nd f : P (p, nd) -> Forall P f -> Forall P (fs_set p nd f).
+Proof.
+  intros Hp. induction f as [|[q x] f IH]; intros HF; cbn [fs_set]; [constructor; [exact Hp|constructor]|].
+  destruct (path_eqb q p) eqn:E.
+  - apply path_eqb_eq in E. subst q. constructor; [exact Hp|exact (Forall_inv_tail HF)].
+  - constructor; [exact (Forall_inv HF)|apply IH, (Forall_inv_tail HF)].
+Qed.
+Lemma fs_del_forall (P : path * fnode -> Prop) p f : Forall P f -> Forall P (fs_del p f).
+Proof.
+  induction f as [|[q x] f IH]; intros HF; cbn [fs_del]; [constructor|].
+  destruct (path_eqb q p); [exact (Forall_inv_tail HF)|].
+  constructor; [exact (Forall_inv HF)|apply IH, (Forall_inv_tail HF)].
+Qed.
+
+(* operations that write nothing but directories at the top level *)
+Definition deep_op (o : op) : Prop :=
+  match o with
+  | Mkdir _ => True
+  | OpenTrunc p => length p <> 1
+  | Append p _ => length p <> 1
+  | Rename _ d => length d <> 1
+  end.
+(* operations that create no directory at the top level *)
+Definition flat_op (o : op) : Prop := match o with Mkdir p => length p <> 1 | _ => True end.
+
+Lemma run_op_dirs o f : deep_op o -> top_all_dirs f -> top_all_dirs (run_op f o).
+Proof.
+  intros HD HF. unfold run_op. destruct (negb (op_ok o f)); [exact HF|].
+  destruct o as [p|p|p b|s d]; cbn [deep_op] in HD.
+  - destruct (fs_get p f); [exact HF|]. apply fs_set_forall; [intros _; reflexivity|exact HF].
+  - apply fs_set_forall; [cbn; intros L; contradiction|exact HF].
+  - destruct (fs_get p f) as [[|c]|]; try exact HF. apply fs_set_forall; [cbn; intros L; contradiction|exact HF].
+  - destruct (fs_get s f) as [nd|]; [|exact HF]. apply fs_del_forall, fs_set_forall; [cbn; intros L; contradiction|exact HF].
+Qed.
+
+Lemma run_op_files o f : flat_op o -> top_all_files f -> top_all_files (run_op f o).
+Proof.
+  intros HD HF. unfold run_op. destruct (op_ok o f) eqn:OK; cbn [negb]; [|exact HF].
+  destruct o as [p|p|p b|s d]; cbn [flat_op] in HD.
+  - destruct (fs_get p f); [exact HF|]. apply fs_set_forall; [cbn; intros L; contradiction|exact HF].
+  - apply fs_set_forall; [cbn; intros _; eexists; reflexivity|exact HF].
+  - destruct (fs_get p f) as [[|c]|]; try exact HF. apply fs_set_forall; [cbn; intros _; eexists; reflexivity|exact HF].
+  - cbn [op_ok] in OK. destruct (fs_get s f) as [[|c]|]; try discriminate.
+    apply fs_del_forall, fs_set_forall; [cbn; intros _; eexists; reflexivity|exact HF].
+Qed.
+
+Lemma run_ops_inv (P : fs -> Prop) (Q : op -> Prop) :
+  (forall o f, Q o -> P f -> P (run_op f o)) ->
+  forall ops f, (forall o, In o ops -> Q o) -> P f -> P (run_ops ops f).
+Proof.
+  intros Hstep. unfold run_ops. induction ops as [|o ops IH]; intros f HQ HP; [exact HP|].
+  cbn [fold_left]. apply IH; [intros o' Ho'; apply HQ; right; exact Ho'|].
+  apply Hstep; [apply HQ; left; reflexivity|exact HP].
+Qed.
+
+Section AutoLayout.
+Variable V : Type.
+Variable encode : V -> bytes.
+
+(* split layout: whatever the crash point, the top level still holds directories only *)
+Theorem auto_layout_stable_split a b v f n : top_all_dirs f ->
+  let g := crash_at n (setitem_ops_fix V encode (KT [a; b]) v) f in
+  top_all_dirs g /\ split_auto g = true /\ split_auto f = true.
+Proof.
+  intros HF g.
+  assert (HG : top_all_dirs g).
+  { unfold g, crash_at. apply (run_ops_inv top_all_dirs deep_op run_op_dirs); [|exact HF].
+    intros o Ho. apply firstn_In in Ho. unfold setitem_ops_fix, mkdir_ops in Ho.
+    cbn [kpath length Nat.ltb Nat.leb prefixes_from map app] in Ho.
+    destruct Ho as [<-|[<-|Ho]]; [exact I|cbn; discriminate|].
+    apply in_app_iff in Ho. destruct Ho as [Ho|[<-|[]]]; [|cbn; discriminate].
+    apply in_map_iff in Ho. destruct Ho as (x & <- & _). cbn. discriminate. }
+  split; [exact HG|]. split; apply split_auto_dirs; assumption.
+Qed.
+
+(* flat layout: the top level holds files only (orphans included), and an older entry is still
+   there, so the layout is still detected as flat *)
+Theorem auto_layout_stable_flat h v f n h0 nd0 : top_all_files f ->
+  fs_get [h0] f = Some nd0 -> h0 <> h -> h0 <> TMPMARK :: h ->
+  let g := crash_at n (setitem_ops_fix V encode (KS h) v) f in
+  top_all_files g /\ split_auto g = false /\ split_auto f = false.
+Proof.
+  intros HF G0 N1 N2 g.
+  assert (HG : top_all_files g).
+  { unfold g, crash_at. apply (run_ops_inv top_all_files flat_op run_op_files); [|exact HF].
+    intros o Ho. apply firstn_In in Ho. unfold setitem_ops_fix, mkdir_ops in Ho.
+    cbn [kpath length Nat.ltb Nat.leb app] in Ho.
+    destruct Ho as [<-|Ho]; [exact I|].
+    apply in_app_iff in Ho. destruct Ho as [Ho|[<-|[]]]; [|exact I].
+    apply in_map_iff in Ho. destruct Ho as (x & <- & _). exact I. }
+  assert (GG : fs_get [h0] g = Some nd0).
+  { unfold g. rewrite (crash_fix_others V encode (KS h) v f n [h0]); [exact G0| | |].
+    - cbn. congruence.
+    - unfold tmp_of. cbn. congruence.
+    - unfold mkdir_ops. cbn. tauto. }
+  split; [exact HG|]. split.
+  - apply (split_auto_files g [h0] nd0 HG eq_refl GG).
+  - apply (split_auto_files f [h0] nd0 HF eq_refl G0).
+Qed.
+End AutoLayout.
+
+(* the converse design is unsafe: one file at the top level of a split cache flips a
+   "no file at top level" detection -- and even the first-child detection when it comes first *)
+Example orphan_at_top_level_flips_layout :
+  let f := [([], FDir); ([[1;2]], FDir); ([[1;2]; [3;4]], FFile [7;0])] in
+  split_auto f = true /\ split_auto (fs_set [[46; 3; 4]] (FFile []) (fs_del [[1;2]] f)) = false.
+Proof. vm_compute. split; reflexivity. Qed.
